@@ -1,11 +1,43 @@
 import Ggql.Driver.C01
+import Ggql.Model.Binding
 namespace Ggql.Driver.C08
-open Ggql Ggql.Walk Ggql.Driver.WalkWire
+open Ggql Ggql.Walk Ggql.Driver.WalkWire Ggql.Binding
 
 /-- D51 (hand-set): by-name binding of union members is first-come: `metaCheck` fails on the first
 member that is neither bound nor name-equal, so a union value whose type is not the *first* member
 resolves to null + error until an earlier member has been bound by another value. -/
 def d51 : Bool := true
+/-- D47 (hand-set): an interface-typed position on a cold root finds no object type for the value -/
+def d47 : Bool := true
+
+def decObj : T → Option ObjT
+  | .node "obj" [n, .atom "none"] => do pure ⟨(← n.asStr), none⟩
+  | .node "obj" [n, d] => do pure ⟨(← n.asStr), some (← d.asStr)⟩
+  | _ => none
+
+def decGo : T → Option GoT
+  | .node "go" [f, s, n] => do pure ⟨(← f.asStr), (← s.asStr), (← n.asStr)⟩
+  | _ => none
+
+def decEv : T → Option (Pos × GoT)
+  | .node "ev" [.node "o" [t], g] => do pure (.obj (← t.asStr), (← decGo g))
+  | .node "ev" [.node "u" [ms], g] => do pure (.union (← optMap T.asStr (← ms.asList)), (← decGo g))
+  | .node "ev" [.atom "i", g] => do pure (.iface, (← decGo g))
+  | _ => none
+
+def encOut (p : Pos) : Out → T
+  | .asType t => (match p with | .union _ => .node "as" [T.ofStr t] | _ => .atom "bound")
+  | .unbound => .atom "unbound"
+  | .err _ => .atom "err"
+  | .empty => .atom "empty"
+
+/-- what the property prescribes: the value is resolved as its own concrete type -/
+def specOut (objs : List ObjT) (p : Pos) (g : GoT) : T :=
+  match p with
+  | .union ms =>
+    -- a value whose type is not a member of the union is not typed by the schema: `{}` (outside the property)
+    (match objs.find? (fun o => ms.contains o.name && bindsByName {} o g) with | some o => .node "as" [T.ofStr o.name] | none => .atom "empty")
+  | _ => .atom "bound"
 
 def handle (tb : Tables) (c impl : T) : String :=
   match c, impl with
@@ -14,8 +46,24 @@ def handle (tb : Tables) (c impl : T) : String :=
      | some true => if d51 then "repaired D51" else "ok"
      | some false => if d51 then "dev D51" else "mismatch spec-bad (obs true)"
      | none => "bad-op")
+  | .node "c08b" [os, ord, evs], .node "l" outs =>
+    -- a history of values reaching object / union / interface positions of one cold reflection root
+    (match (do pure ((← optMap decObj (← os.asList)), (← optMap T.asStr (← ord.asList)), (← optMap decEv (← evs.asList)))) with
+     | none => "bad-op"
+     | some (objs, order, events) =>
+       let model := run {} objs order [] events
+       let cur : List T := (events.zip model).map (fun p => encOut p.1.1 p.2)
+       let spec : List T := events.map (fun e => specOut objs e.1 e.2)
+       let specOk := outs == spec
+       if outs == cur then
+         (if specOk then "ok"
+          else
+            let fl := (if d51 && model.any (fun o => match o with | .err _ => true | _ => false) then ["D51"] else []) ++
+                      (if d47 && model.any (fun o => o == .unbound) then ["D47"] else [])
+            if fl.isEmpty then "unattributed " ++ (T.list cur).render else "dev " ++ ",".intercalate fl)
+       else "mismatch " ++ (if specOk then "spec-ok " else "spec-bad ") ++ (T.list cur).render)
   | _, _ => C01.handle tb c impl
 
-def flags (tb : Tables) : List (String × Bool) := [("D14", (cfgCur tb).condByIdentity), ("D51", d51)]
+def flags (tb : Tables) : List (String × Bool) := [("D14", (cfgCur tb).condByIdentity), ("D51", d51), ("D47", d47)]
 
 end Ggql.Driver.C08
